@@ -466,5 +466,72 @@ theorem contract_rep {t : Patricia V} (dir : Nat → Bool) (T : PT V) :
             exact ih1
         · rw [setLink_nodes]; simp [hne, hpn]
 
+/-- the leaf a path ends at is the stored node -/
+theorem Rep.descendD_node {t : Patricia V} {T : PT V} {b : Nat} {p : Option Nat} (h : Rep t b p T) (dir : Nat → Bool) :
+    ∃ n, t.nodes[(descendD T dir).1]? = some n ∧ n.key = (descendD T dir).2.1 ∧ n.val = (descendD T dir).2.2 := by
+  induction T generalizing b p with
+  | leaf i k v =>
+    obtain ⟨_, n, hn, _, hk, hv⟩ := h
+    exact ⟨n, hn, hk, hv⟩
+  | inner i bp l r ihl ihr =>
+    obtain ⟨_, n, hn, _, _, hl, hr⟩ := h
+    simp only [descendD]
+    split
+    · exact ihr hr
+    · exact ihl hl
+
+/-- what `remove` computes from the stored nodes agrees with `cutAt`: the other child `c` of the referrer, and the
+side of the link that is redirected -/
+theorem cut_store {t : Patricia V} (dir : Nat → Bool) (kn : Key) (T : PT V) :
+    ∀ (b : Nat) (p : Option Nat) (pi : Nat) (sd : Bool) (rp0 : Nat), Rep t b p T → (∃ i bp l r, T = .inner i bp l r) →
+      OnPath T dir kn →
+      (∃ rrn, t.nodes[(findEnd T rp0 pi dir).2.1]? = some rrn ∧ 1 ≤ rrn.bp ∧
+        (if xbit kn (rrn.bp - 1) then rrn.left else rrn.right) = some (cutAt T pi sd dir).2.2) ∧
+      (((cutAt T pi sd dir).1 = pi ∧ (cutAt T pi sd dir).2.1 = sd) ∨
+       ((cutAt T pi sd dir).1 ∈ inners T ∧ ∃ nd, t.nodes[(cutAt T pi sd dir).1]? = some nd ∧ 1 ≤ nd.bp ∧
+          (cutAt T pi sd dir).2.1 = xbit kn (nd.bp - 1))) := by
+  induction T with
+  | leaf => intro _ _ _ _ _ _ hT; obtain ⟨_, _, _, _, h⟩ := hT; cases h
+  | inner i bp l r ihl ihr =>
+    intro b p pi sd rp0 h _ hop
+    obtain ⟨hp, n, hn, hbp, hb, hl, hr⟩ := h
+    subst hbp
+    obtain ⟨hdk, hrest⟩ := hop
+    simp only [cutAt, findEnd]
+    by_cases hd : dir n.bp = true
+    · simp only [hd, if_true] at hrest ⊢
+      have hk : xbit kn (n.bp - 1) = true := by rw [← hdk]; exact hd
+      cases r with
+      | leaf j k v =>
+        simp only [findEnd]
+        exact ⟨⟨n, hn, by omega, by simp [hk, hl.idx_eq]⟩, .inl (by simp)⟩
+      | inner j bp' l' r' =>
+        obtain ⟨h1, h2⟩ := ihr n.bp n.right i true pi hr ⟨_, _, _, _, rfl⟩ hrest
+        refine ⟨h1, .inr ?_⟩
+        rcases h2 with ⟨e1, e2⟩ | ⟨e1, nd, e2, e3, e4⟩
+        · refine ⟨by rw [e1]; simp [inners], n, by rw [e1]; exact hn, by omega, by rw [e2, hk]⟩
+        · refine ⟨?_, nd, e2, e3, e4⟩
+          have : (cutAt (.inner j bp' l' r') i true dir).1 ∈ inners l ++ inners (.inner j bp' l' r') :=
+            List.mem_append.mpr (.inr e1)
+          simp only [inners, List.mem_cons]
+          exact .inr this
+    · simp only [hd, Bool.false_eq_true, if_false] at hrest ⊢
+      have hk : xbit kn (n.bp - 1) = false := by
+        rw [← hdk]; simpa using hd
+      cases l with
+      | leaf j k v =>
+        simp only [findEnd]
+        exact ⟨⟨n, hn, by omega, by simp [hk, hr.idx_eq]⟩, .inl (by simp)⟩
+      | inner j bp' l' r' =>
+        obtain ⟨h1, h2⟩ := ihl n.bp n.left i false pi hl ⟨_, _, _, _, rfl⟩ hrest
+        refine ⟨h1, .inr ?_⟩
+        rcases h2 with ⟨e1, e2⟩ | ⟨e1, nd, e2, e3, e4⟩
+        · refine ⟨by rw [e1]; simp [inners], n, by rw [e1]; exact hn, by omega, by rw [e2, hk]⟩
+        · refine ⟨?_, nd, e2, e3, e4⟩
+          have : (cutAt (.inner j bp' l' r') i false dir).1 ∈ inners (.inner j bp' l' r') ++ inners r :=
+            List.mem_append.mpr (.inl e1)
+          simp only [inners, List.mem_cons]
+          exact .inr this
+
 end Patricia
 end AlgoVerif.C06
